@@ -171,7 +171,10 @@ var c07dec = gen.Register(&gen.Check[caseC07dec]{
 		if len(data) == 0 {
 			c.Nil = rapid.Bool().Draw(t, "nil")
 		} else if gen.Chance(t, "interior", 1, 3) {
-			c.Lay = gen.Layout{Pre: rapid.IntRange(1, 15).Draw(t, "pre"), Post: rapid.SampledFrom([]int{0, 1, 7, 64}).Draw(t, "post")}
+			c.Lay = gen.Layout{Pre: rapid.IntRange(1, 15).Draw(t, "pre"), Post: rapid.SampledFrom([]int{0, 1, 7, 64}).Draw(t, "post"), Fill: gen.Pick(t, "fill", gen.NumFills)}
+			if gen.Chance(t, "tail", 1, 4) {
+				c.Lay.Tail, c.Lay.Post = true, 0
+			}
 		}
 		return c
 	},
@@ -216,22 +219,34 @@ func TestC07Decode(t *testing.T) { c07dec.Execute(t) }
 
 type caseC07enc struct {
 	S SV `json:"s"`
+	// Batch > 0: the encoding is the first of a batch: Batch further scalars are encoded, then the caller appends to each
+	// kept encoding in turn (writes over its full capacity); every later one must still be the canonical encoding of its scalar.
+	Batch int `json:"batch,omitempty"`
 }
+
+var c07three = secp256k1.NewScalar().SetUInt64(3)
 
 var c07enc = gen.Register(&gen.Check[caseC07enc]{
 	Name:   "C07/encode",
 	Weight: 0.5,
-	Gen:    func(t *rapid.T) caseC07enc { return caseC07enc{S: SVGen().Draw(t, "s")} },
+	Gen: func(t *rapid.T) caseC07enc {
+		c := caseC07enc{S: SVGen().Draw(t, "s")}
+		if gen.Chance(t, "batch", 1, 16) {
+			c.Batch = 100 + gen.Pick(t, "batchSize", 400)
+		}
+		return c
+	},
 	Fixed: func() []caseC07enc {
-		out := []caseC07enc{{SV{Hex: gen.H(new(big.Int))}}, {SV{Hex: gen.H(bigOne)}}, {SV{Hex: gen.H(nm1)}}, {SV{Hex: gen.H(big.NewInt(1)), Mont: true}}}
+		out := []caseC07enc{{S: SV{Hex: gen.H(new(big.Int))}}, {S: SV{Hex: gen.H(bigOne)}}, {S: SV{Hex: gen.H(nm1)}}, {S: SV{Hex: gen.H(big.NewInt(1)), Mont: true}},
+			{S: SV{Hex: gen.H(big.NewInt(7))}, Batch: 300}, {S: SV{Hex: gen.H(nm1)}, Batch: 5000}}
 		for _, m := range gen.WordProducts(new(big.Int), 64, func(w, mask uint64) []uint64 { return gen.LimbPatterns }) {
 			if m.Cmp(ref.N) < 0 {
-				out = append(out, caseC07enc{SV{Hex: gen.H(m), Mont: true}})
+				out = append(out, caseC07enc{S: SV{Hex: gen.H(m), Mont: true}})
 			}
 		}
 		return out
 	},
-	Required: []string{"mont-domain", "leading-zero-byte"},
+	Required: []string{"mont-domain", "leading-zero-byte", "batch"},
 	Run: func(c caseC07enc, o *gen.Obs) error {
 		hostileCaller()
 		s := c.S.Build()
@@ -273,6 +288,31 @@ var c07enc = gen.Register(&gen.Check[caseC07enc]{
 			}
 			if r.Equal(s) != 1 {
 				return gen.Fail("roundtrip/"+via, "Decode(Encode(s)) != s for %x", v)
+			}
+		}
+		if c.Batch > 0 {
+			o.Class("batch")
+			encs, vals := [][]byte{s.Encode()}, []*secp256k1.Scalar{s}
+			t := s.Copy()
+			for i := 0; i < c.Batch; i++ {
+				t = t.Copy().Add(c07three)
+				vals = append(vals, t)
+				if i%2 == 0 {
+					encs = append(encs, t.Encode())
+				} else {
+					b, _ := t.MarshalBinary()
+					encs = append(encs, b)
+				}
+			}
+			for i, e := range encs {
+				r := secp256k1.NewScalar()
+				if err := r.Decode(e); err != nil || r.Equal(vals[i]) != 1 {
+					return gen.Fail("Encode/batch", "encoding %d of a batch of %d no longer decodes to its scalar after the caller appended to earlier ones: %x (%v)", i, len(encs), e, err)
+				}
+				full := e[:cap(e)]
+				for j := range full {
+					full[j] = 0xa5
+				}
 			}
 		}
 		return nil
